@@ -49,6 +49,11 @@ type Act struct {
 	K        int      `json:"k,omitempty"`
 	// Mixed: the callers of a burst address different resources (different scope sets)
 	Mixed bool `json:"mixed,omitempty"`
+	// LeaderDeadline: the first caller of the burst starts a few milliseconds ahead
+	// with a context whose deadline expires while its credential is being looked up
+	// (the lookup returns the context's error); the others, with healthy contexts,
+	// must still be served
+	LeaderDeadline bool `json:"leaderDeadline,omitempty"`
 }
 
 // Case is one world plus a history.
@@ -130,6 +135,7 @@ func genCase(t *rapid.T) Case {
 			a.Kind = "burst"
 			a.K = rapid.IntRange(2, 8).Draw(t, "k")
 			a.Mixed = rapid.IntRange(0, 2).Draw(t, "mixed") == 0
+			a.LeaderDeadline = !a.Mixed && rapid.IntRange(0, 3).Draw(t, "leaderDeadline") == 0
 		default:
 			a.Kind = "expire"
 		}
@@ -653,6 +659,11 @@ func runInner(c Case) (res vt.Result, fail *vt.Fail) {
 		cl.Cache = nil
 	}
 	cl.Credential = func(ctx context.Context, hostport string) (auth.Credential, error) {
+		if _, doomed := ctx.Deadline(); doomed {
+			// a slow credential store: the caller's deadline passes first
+			<-ctx.Done()
+			return auth.EmptyCredential, ctx.Err()
+		}
 		r := w.regs[hostport]
 		if r == nil {
 			return auth.EmptyCredential, nil
@@ -671,9 +682,15 @@ func runInner(c Case) (res vt.Result, fail *vt.Fail) {
 	covered := map[string]map[string]bool{} // host -> canonical scope sets a valid token was minted for
 	hostsTouched := map[string]bool{}
 	cacheHit, rechallenge, mixedOverlap := false, false, false
+	leader := map[int]bool{} // call ids that run with a doomed context
 	doOne := func(a Act, id int) (*http.Response, error) {
 		r := c.Regs[a.Host]
 		ctx := context.WithValue(context.Background(), callIDKey{}, id)
+		if a.LeaderDeadline && leader[id] {
+			var cancel context.CancelFunc
+			ctx, cancel = context.WithTimeout(ctx, 15*time.Millisecond)
+			defer cancel()
+		}
 		if len(a.Hints) > 0 {
 			if a.HintMode == 0 {
 				ctx = auth.WithScopes(ctx, a.Hints...)
@@ -761,6 +778,13 @@ func runInner(c Case) (res vt.Result, fail *vt.Fail) {
 			for g := 0; g < k; g++ {
 				callID++
 				id := callID
+				if a.LeaderDeadline && k > 1 {
+					if g == 0 {
+						leader[id] = true
+					} else if g == 1 {
+						time.Sleep(4 * time.Millisecond) // the leader is in its lookup by now
+					}
+				}
 				wg.Add(1)
 				go func(g, id int) {
 					defer wg.Done()
@@ -804,6 +828,14 @@ func runInner(c Case) (res vt.Result, fail *vt.Fail) {
 				}
 			}
 			for g, o := range outs {
+				if a.LeaderDeadline && k > 1 && g == 0 {
+					// the doomed caller may fail (with its own deadline); nothing else
+					if o.err == nil {
+						o.resp.Body.Close()
+					}
+					res.Classes = append(res.Classes, "burst-led-by-a-caller-whose-deadline-expires")
+					continue
+				}
 				if o.err != nil {
 					if credValid(r) && r.Redirect == "" {
 						return res, vt.Failf("C16/request-failed-with-valid-credentials", "action %d call %d to %s%s: %v", i, g, r.Host, a.Path, o.err)
